@@ -166,19 +166,25 @@ class Boom(Exception):
     pass
 
 
-def job_fault(nfr, k, which):
-    """callback `which` raises on the k-th frame: afterwards every frame's time axis equals the original"""
+ABORTS = dict(error=None, interrupt=KeyboardInterrupt, exit=SystemExit)
+
+
+def job_fault(nfr, k, which, abort='error'):
+    """callback `which` raises on the k-th frame: afterwards every frame's time axis equals the original.
+    abort: an ordinary exception, or one that is not an Exception subclass (Ctrl-C, the sys.exit() some shipped
+    profiles call on bad arguments)"""
     recs = []
     T, Fc = 2, 3
     df, dt, fch1, pre = geom_syms()
     taus = [Sym(z3.Real(f'tau{m}')) for m in range(nfr)]
-    tag = f"C16:fault:{(nfr, k, which)}"
+    tag = f"C16:fault:{(nfr, k, which)}" + (f":{abort}" if abort != 'error' else '')
     calls = [0]
+    exc_t = ABORTS[abort] or Boom
 
     def bomb(*a):
         calls[0] += 1
         if calls[0] == k + 1:
-            raise Boom(f"callback failure on frame {k}")
+            raise exc_t(f"callback failure on frame {k}")
         return (inject.PATH if which == 'path' else (inject.TP if which == 't_profile' else inject.FP))(*a)
 
     def run():
@@ -190,7 +196,7 @@ def job_fault(nfr, k, which):
         try:
             cad.add_signal(bomb if which == 'path' else inject.PATH, bomb if which == 't_profile' else inject.TP,
                            bomb if which == 'f_profile' else inject.FP, inject.BP)
-        except Boom:
+        except exc_t:
             raised = True
         return frames, before, raised
     with cad_patches():
@@ -205,7 +211,7 @@ def job_fault(nfr, k, which):
     r, m = core.check(pre + leaf.side + [z3.Or(*dis)], timeout_ms=60000)
     recs.append(q(tag, r, raised=raised))
     if r == 'sat':
-        recs.append(cex('C16:fault:ts-shifted', f'after {which} raised on frame {k} a frame time axis stays shifted', dict(fn='cadence', nfr=nfr, T=T, Fc=Fc, asc=True, opts=None, select=None, fault=[k, which]), name=tag))
+        recs.append(cex('C16:fault:ts-shifted', f'after {which} raised on frame {k} a frame time axis stays shifted', dict(fn='cadence', nfr=nfr, T=T, Fc=Fc, asc=True, opts=None, select=None, fault=[k, which, abort]), name=tag))
     r, _ = core.check([RV(int(raised)) != 1])
     recs.append(q(tag + ':exception-propagates', r, trivial=True))
     return recs
@@ -344,17 +350,18 @@ def replay_cadence(p):
     bp = lambda f: 1.0 + 1e-4 * (f - 4090.0)
     cad = stg.Cadence(frames)
     if fault:
-        k, which = fault
+        k, which = fault[0], fault[1]
+        exc_t = {'interrupt': KeyboardInterrupt, 'exit': SystemExit}.get(fault[2] if len(fault) > 2 else 'error', RuntimeError)
         n = [0]
 
         def bomb(*a):
             n[0] += 1
             if n[0] == k + 1:
-                raise RuntimeError('boom')
+                raise exc_t('boom')
             return {'path': path, 't_profile': tprof, 'f_profile': fprof}[which](*a)
         try:
             cad.add_signal(bomb if which == 'path' else path, bomb if which == 't_profile' else tprof, bomb if which == 'f_profile' else fprof, bp)
-        except RuntimeError:
+        except exc_t:
             pass
         bad = [m for m, fr in enumerate(frames) if not np.array_equal(fr.ts, ts0[m])]
         return bool(bad), f"after {which} raised on frame {k}: time axes of frames {bad} differ from the originals (max shift {max([float(np.max(np.abs(frames[m].ts - ts0[m]))) for m in bad] or [0])})"
@@ -482,6 +489,9 @@ def main():
         for k in range(nfr):
             for which in ('path', 't_profile', 'f_profile'):
                 jobs.append(('job_fault', (nfr, k, which)))
+                if which == 't_profile' and k >= 1:
+                    for abort_ in ('interrupt', 'exit'):
+                        jobs.append(('job_fault', (nfr, k, which, abort_)))
         jobs.append(('job_exact_restore', (nfr,)))
         jobs.append(('job_times', (nfr, 2)))
         if nfr >= 2:
